@@ -211,7 +211,7 @@ def enum_calls(w, key, f, limit=40):
         elif s[0] == "i":
             sh = v["sh"]
             tuples = list(np.ndindex(*sh))
-            if len(tuples) > 6:        # corners + a few random ones; all of them when small
+            if len(tuples) > 12:       # corners + a few random ones; all of them when small
                 rng = w.rng
                 tuples = [tuples[0], tuples[-1]] + rng.sample(tuples[1:-1], 4)
             for t in tuples:
